@@ -101,10 +101,23 @@ class Ase(ApplicationServiceElement):
         self.peer.rig.on_confirmation(self.peer, apdu)
 
 
+DEVICE_PROPS = {"numberOfApduRetries": "numberOfApduRetries", "apduTimeout": "apduTimeout", "segmentTimeout": "apduSegmentTimeout",
+                "maxApduLengthAccepted": "maxApduLengthAccepted", "segmentationSupported": "segmentationSupported",
+                "maxSegmentsAccepted": "maxSegmentsAccepted"}
+
+
 class Peer:
-    def __init__(self, rig, name, addr, cfg):
+    def __init__(self, rig, name, addr, cfg, via_device=False):
+        """via_device: the per-transaction settings come from a local device object (what applications do) instead of
+        the access point's own attributes"""
         self.rig, self.name, self.addr = rig, name, Address(addr)
-        self.smap = StateMachineAccessPoint(None, DeviceInfoCache())
+        dev = None
+        if via_device:
+            from bacpypes.local.device import LocalDeviceObject
+            kw = {DEVICE_PROPS[k]: v for k, v in cfg.items() if k in DEVICE_PROPS and v is not None}
+            dev = LocalDeviceObject(objectName="dev-" + name, objectIdentifier=("device", addr), vendorIdentifier=999, **kw)
+            cfg = {k: v for k, v in cfg.items() if k not in DEVICE_PROPS}
+        self.smap = StateMachineAccessPoint(dev, DeviceInfoCache())
         for k, v in cfg.items():
             setattr(self.smap, k, v)
         self.ase = Ase(self)
@@ -132,12 +145,21 @@ class Rig:
                       applicationTimeout=cfg["tapp"])
         self.c = Peer(self, "c", 1, dict(common, proposedWindowSize=cfg["pwc"], maxApduLengthAccepted=cfg.get("c_max", seg),
                                           maxSegmentsAccepted=cfg.get("c_maxsegs", cfg.get("maxsegs", 64)),
-                                          segmentationSupported=cfg.get("c_seg", "segmentedBoth")))
+                                          segmentationSupported=cfg.get("c_seg", "segmentedBoth")), via_device=cfg.get("via_device", False))
         self.s = Peer(self, "s", 2, dict(common, proposedWindowSize=cfg["pws"], maxApduLengthAccepted=cfg.get("s_max", seg),
                                           maxSegmentsAccepted=cfg.get("s_maxsegs", cfg.get("maxsegs", 64)),
-                                          segmentationSupported=cfg.get("s_seg", "segmentedBoth")))
+                                          segmentationSupported=cfg.get("s_seg", "segmentedBoth")), via_device=cfg.get("via_device", False))
         self.in_prior = False
-        if cfg.get("known") and cfg.get("reann"):
+        if cfg.get("known") and (cfg.get("reann") or {}).get("how") == "moved":
+            self.moved_exchange()
+        elif cfg.get("known") == "addr":
+            # the client knows the server by address only (a record the application filed without a device identifier)
+            from bacpypes.app import DeviceInfo
+            di = DeviceInfo(None, self.s.addr)
+            di.maxApduLengthAccepted = cfg.get("s_max", seg)
+            di.segmentationSupported = cfg.get("s_seg", "segmentedBoth")
+            self.c.smap.deviceInfoCache.update_device_info(di)
+        elif cfg.get("known") and cfg.get("reann"):
             # ... an older I-Am of the server first (other capabilities); the current one arrives later, see prior_exchange
             self.server_iam(cfg["reann"]["max"], cfg["reann"].get("seg", cfg.get("s_seg", "segmentedBoth")))
         elif cfg.get("known"):
@@ -178,6 +200,9 @@ class Rig:
         h["dir"] = d
         self.frame_no += 1
         h["n"] = self.frame_no
+        if self.cfg.get("iam_on_frame") == self.frame_no:
+            # the server's I-Am (same capabilities) reaches the client while the transaction is open
+            self.server_iam(self.cfg.get("s_max", self.cfg["seg"]), self.cfg.get("s_seg", "segmentedBoth"))
         fr = [octets, vt.now, d, h]
         self.net.append(fr)
         self.tx.append(fr)
@@ -231,11 +256,21 @@ class Rig:
         self.sind.append({"toks": toks, "ok": bytes(apdu.pduData) == self.req})
         self.sapp.append([vt.now + self.cfg.get("app_delay", 0) / 1000.0, apdu])
 
-    def server_iam(self, max_apdu, segsup):
+    def server_iam(self, max_apdu, segsup, device=2, source=None):
         from bacpypes.apdu import IAmRequest
-        iam = IAmRequest(iAmDeviceIdentifier=("device", 2), maxAPDULengthAccepted=max_apdu, segmentationSupported=segsup, vendorID=999)
-        iam.pduSource = self.s.addr
+        iam = IAmRequest(iAmDeviceIdentifier=("device", device), maxAPDULengthAccepted=max_apdu, segmentationSupported=segsup, vendorID=999)
+        iam.pduSource = source or self.s.addr
         self.c.smap.deviceInfoCache.iam_device_info(iam)
+
+    def moved_exchange(self):
+        """cfg["reann"]["how"] = "moved": the server's address used to belong to ANOTHER device (its I-Am, with other
+        capabilities, is what the client heard from there); the server itself announced first from a different address and
+        has now moved in: its I-Am comes from the address under test.  The client has to go by the newest announcement."""
+        old = self.cfg["reann"]
+        cur = (self.cfg.get("s_max", self.cfg["seg"]), self.cfg.get("s_seg", "segmentedBoth"))
+        self.server_iam(old["max"], old.get("seg", cur[1]), device=7)                   # former occupant, from the address under test
+        self.server_iam(cur[0], cur[1], device=2, source=Address(9))                   # the server, from where it lived before
+        self.server_iam(cur[0], cur[1], device=2)                                      # the server, from the address under test
 
     def prior_exchange(self):
         """cfg["reann"]: the client heard an older I-Am of the server; the server's current I-Am reaches the client
